@@ -185,7 +185,10 @@ theorem startApp_mpool (cid : Nat) (blocked : List Nat) (a : App) (s : State) :
     (startApp cid blocked a s).1.mpool = s.mpool := by
   unfold startApp
   split
-  · exact bindAll_mpool _ _ _ _ _
+  · have h := bindAll_mpool cid a blocked a.listen s
+    generalize bindAll cid a blocked a.listen s = r at h
+    obtain ⟨s', b⟩ := r
+    cases b <;> exact h
   · split
     · rfl
     · have h := bindAll_mpool cid a blocked a.listen (evA s [.start cid a.name])
